@@ -4,6 +4,14 @@
 // and records every event in model units for spec/trace/FiltersTrace.tla
 // (monitor = property section of Filters.tla, strict = equality with the
 // algorithmic specification).
+//
+// Ntimed behaviours carry a schedule of clock steps inside Do calls ("a step
+// lands after the k-th Epoch() read of the j-th Do"), replayed through the
+// registered fake clock whose Epoch() is scripted per read; every Do record
+// says what its reads returned (q) and where steps landed inside it (ks).
+// Each group first runs its references (fresh filter, samples only, no
+// step) for every place where "the samples seen since" can begin, then the
+// behaviour itself.
 package c17
 
 import (
@@ -24,10 +32,67 @@ import (
 // ---------------------------------------------------------------- fake clock
 // timebase.RegisterClock can be called once per process; the epoch of the
 // registered clock is what NtimedFilter reads through timebase.Epoch().
-type fakeClock struct{ epoch atomic.Uint64 }
+//
+// Interleaving with the goroutine that steps the clock is scripted per read:
+// while a Do is in progress (arm ... disarm) every Epoch() call is counted,
+// and a clock step scheduled "after the k-th read of this Do" is performed at
+// the beginning of the (k+1)-th Epoch() call, before the value is loaded -
+// exactly what the filter's goroutine sees when the sync loop steps the
+// clock between the two reads.  Steps whose place is not reached (the Do
+// makes fewer reads) are handed back and performed after Do has returned.
+// Everything runs on one goroutine; the script makes the schedule exact.
+type fakeClock struct {
+	epoch  atomic.Uint64
+	armed  bool
+	reads  int      // Epoch() reads since arm
+	script []int    // read counts after which a step lands, ascending
+	vals   []uint64 // value returned by each read since arm
+	done   []int    // read counts at which a step actually landed inside the Do
+	total  int      // all Epoch() reads while armed, plus reads counted by count (statistics)
+	count  bool     // count reads although not armed (lucky packet runs)
+	nowCnt int      // Now() calls
+}
 
-func (c *fakeClock) Epoch() uint64                                { return c.epoch.Load() }
-func (c *fakeClock) Now() time.Time                               { return time.Unix(1700000000, 0) }
+func (c *fakeClock) Epoch() uint64 {
+	if c.count || c.armed {
+		c.total++
+	}
+	if !c.armed {
+		return c.epoch.Load()
+	}
+	for len(c.script) > 0 && c.script[0] <= c.reads {
+		c.epoch.Add(1) // the other goroutine's Step lands here
+		c.done = append(c.done, c.reads)
+		c.script = c.script[1:]
+	}
+	c.reads++
+	v := c.epoch.Load()
+	c.vals = append(c.vals, v)
+	return v
+}
+
+// arm starts counting the reads of one Do with the given schedule.
+func (c *fakeClock) arm(st []int) {
+	c.armed, c.reads = true, 0
+	c.script = append(c.script[:0], st...)
+	c.vals, c.done = c.vals[:0], c.done[:0]
+}
+
+// disarm returns the values read, the places where steps landed inside the
+// Do and the number of scheduled steps that were not reached.
+func (c *fakeClock) disarm() (q, ks []int, left int) {
+	c.armed = false
+	q, ks = []int{}, []int{}
+	for _, v := range c.vals {
+		q = append(q, int(v))
+	}
+	ks = append(ks, c.done...)
+	left = len(c.script)
+	c.script = c.script[:0]
+	return
+}
+
+func (c *fakeClock) Now() time.Time                               { c.nowCnt++; return time.Unix(1700000000, 0) }
 func (c *fakeClock) Drift(time.Duration) time.Duration            { return 0 }
 func (c *fakeClock) Step(time.Duration)                           { c.epoch.Add(1) }
 func (c *fakeClock) Adjust(time.Duration, time.Duration, float64) {}
@@ -47,6 +112,7 @@ type cev struct {
 	Fh  bool   `json:"fh"`
 	Br  int    `json:"br"`
 	N   int    `json:"n"`
+	St  []int  `json:"st"` // ntimed "s": a clock step lands after the St[i]-th Epoch() read of this Do
 }
 
 type tcase struct {
@@ -78,6 +144,10 @@ type lrec struct {
 type nrec struct {
 	Ev    string  `json:"ev"`    // ngroup nnew ns nr ne
 	Src   string  `json:"src"`   // gen | rand
+	Role  string  `json:"role"`  // ref: fresh filter, no clock step, no reset (reference) | main
+	St    []int   `json:"st"`    // the schedule: clock steps after the St[i]-th Epoch() read of this Do
+	Q     []int   `json:"q"`     // the values the Epoch() reads of this Do returned, in order
+	Ks    []int   `json:"ks"`    // for each clock step that landed inside this Do: the number of reads made before it
 	Clk   int     `json:"clk"`   // clock epoch when the event happened
 	ID    int     `json:"id"`    // identity of the concrete sample within its group
 	LogOK bool    `json:"logok"` // the filter's "filtered response" record was found
@@ -101,7 +171,7 @@ func newRec(ev, src string) *lrec {
 }
 
 func newNRec(ev, src string) *nrec {
-	return &nrec{Ev: ev, Src: src, O: []int64{0, 0, 0}}
+	return &nrec{Ev: ev, Src: src, Role: "-", O: []int64{0, 0, 0}, St: []int{}, Q: []int{}, Ks: []int{}}
 }
 
 var tbase = time.Date(2025, 3, 4, 5, 6, 7, 890, time.UTC)
@@ -189,10 +259,24 @@ func observeWin(f *client.LuckyPacketFilter, oe oemb, re remb) (woff, wrtd []int
 
 type lstats struct{ runs, events, inexact int }
 
+// Epoch() / Now() calls made by the lucky packet filter (it is expected to
+// make none: the interleaving dimension of the clock does not exist for it)
+var luckyClockCalls int
+
+func watchLucky() func() {
+	t0, n0 := clock.total, clock.nowCnt
+	clock.count = true
+	return func() {
+		clock.count = false
+		luckyClockCalls += (clock.total - t0) + (clock.nowCnt - n0)
+	}
+}
+
 // runLucky drives a fresh real filter through the events; nil if some output
 // has no exact inverse image (counted, never judged).
 func runLucky(capa, k int, evs []cev, oi, ri int, src string, rng *rand.Rand) []*rec {
 	oe, re := oembs[oi], rembs[ri]
+	defer watchLucky()()
 	var f *client.LuckyPacketFilter
 	if capa == 0 {
 		f = &client.LuckyPacketFilter{} // unconfigured: the zero value
@@ -258,6 +342,7 @@ var examples = []struct {
 func runExamples(out *vio.Out, st *lstats) {
 	const ms = int64(time.Millisecond)
 	oe, re := oemb{ms, 0}, remb{ms, 0}
+	defer watchLucky()()
 	var t0 time.Time
 	at := func(d int64) time.Time { return t0.Add(time.Duration(d) * time.Millisecond) }
 	for _, ex := range examples {
@@ -379,7 +464,8 @@ type nevent struct {
 	t        string // s r e
 	id       int
 	s        nsample
-	ifl, ifh bool // the class the concretiser aimed at
+	ifl, ifh bool  // the class the concretiser aimed at
+	st       []int // schedule of clock steps inside this Do (see cev.St)
 }
 
 const margin = int64(100000) // 100 us
@@ -521,42 +607,77 @@ func observeN(f *client.NtimedFilter) (navg, fep int, ok bool) {
 }
 
 type nstats struct {
-	groups, runs, samples, nolog, realised, judgedInb, judgedCnt int
-	branch                                                       [5]int
+	groups, runs, refs, samples, nolog, realised, judgedInb, judgedCnt int
+	branch                                                             [5]int
+	// the interleaving dimension
+	schedDos, schedSteps int    // Do calls with a schedule / scheduled steps (main runs)
+	inDoDos, inDoSteps   int    // Do calls inside which >= 1 step landed / steps that landed inside a Do
+	between              int    // steps that landed between two Epoch() reads of one Do
+	leftSteps            int    // scheduled steps whose place the Do did not reach (performed after it returned)
+	reads                [4]int // Do calls by number of Epoch() reads (0, 1, 2, >= 3)
 }
 
 // runNtimed drives a fresh real filter through the events with the clock
-// epoch starting at clk0, emitting one record per event.
-func runNtimed(out *vio.Out, evs []nevent, clk0 uint64, src string, scale int, st *nstats) {
+// epoch starting at clk0, emitting one record per event.  role "ref": the
+// events are samples only and no schedule is applied.
+func runNtimed(out *vio.Out, evs []nevent, clk0 uint64, src, role string, scale int, st *nstats) {
 	clock.epoch.Store(clk0)
 	h := &capHandler{}
 	f := client.NewNtimedFilter(slog.New(h))
 	r := newNRec("nnew", src)
-	r.Clk, r.Scale = int(clk0), scale
+	r.Clk, r.Scale, r.Role = int(clk0), scale, role
 	out.Emit(r)
-	var seg []nsample
+	// seg: samples of Do calls entered since the last reset / clock step; amb: the
+	// sample whose Do was in progress when the last clock step landed (if any)
+	var seg, amb []nsample
+	step := func() {
+		clock.Step(0)
+		seg, amb = seg[:0], amb[:0]
+		r := newNRec("ne", src)
+		r.Clk, r.Role = int(clock.Epoch()), role
+		r.Navg, r.FEp, r.NObs = observeN(f)
+		out.Emit(r)
+	}
 	for _, e := range evs {
 		switch e.t {
 		case "r":
 			f.Reset()
-			seg = seg[:0]
+			seg, amb = seg[:0], amb[:0]
 			r := newNRec("nr", src)
-			r.Clk = int(clock.Epoch())
+			r.Clk, r.Role = int(clock.Epoch()), role
 			r.Navg, r.FEp, r.NObs = observeN(f)
 			out.Emit(r)
 		case "e":
-			clock.Step(0)
-			seg = seg[:0]
-			r := newNRec("ne", src)
-			r.Clk = int(clock.Epoch())
-			r.Navg, r.FEp, r.NObs = observeN(f)
-			out.Emit(r)
+			step()
 		case "s":
 			h.last = nil
 			s := e.s
+			var sched []int
+			if role == "main" {
+				sched = e.st
+			}
+			clock.arm(sched)
 			o := int64(f.Do(s.cTx, s.sRx, s.sTx, s.cRx))
+			q, ks, left := clock.disarm()
 			r := newNRec("ns", src)
-			r.Clk, r.ID, r.Scale = int(clock.Epoch()), e.id, scale
+			r.Clk, r.ID, r.Scale, r.Role = int(clock.Epoch()), e.id, scale, role
+			r.Q, r.Ks = q, ks
+			r.St = append(r.St, sched...)
+			st.reads[min(len(q), 3)]++
+			if len(sched) > 0 {
+				st.schedDos++
+				st.schedSteps += len(sched)
+				st.leftSteps += left
+			}
+			if len(ks) > 0 {
+				st.inDoDos++
+				st.inDoSteps += len(ks)
+				for _, k := range ks {
+					if k > 0 && k < len(q) {
+						st.between++
+					}
+				}
+			}
 			if lr := h.last; lr != nil && lr.n == 5 && lr.br >= 1 && lr.br <= 4 {
 				r.LogOK, r.Br = true, int(lr.br)
 				r.Fl, r.Fh = lr.lo < lr.loLim, lr.hi > lr.hiLim
@@ -568,7 +689,10 @@ func runNtimed(out *vio.Out, evs []nevent, clk0 uint64, src string, scale int, s
 				st.nolog++
 			}
 			r.Navg, r.FEp, r.NObs = observeN(f)
-			r.Inb = inBounds(seg, s)
+			// against every sample that may count as seen since (the largest reading):
+			// nested in / equal to all of them implies the same for every smaller reading
+			prev := append(append([]nsample{}, amb...), seg...)
+			r.Inb = inBounds(prev, s)
 			d := o - s.raw // |o|, |raw| < 2^62
 			if d < 0 {
 				d = -d
@@ -580,26 +704,40 @@ func runNtimed(out *vio.Out, evs []nevent, clk0 uint64, src string, scale int, s
 			}
 			r.Tol = 1 + a/1000000000
 			r.O = chunks(o)
-			seg = append(seg, s)
 			if r.Inb {
 				st.judgedInb++
 			}
-			if len(seg) <= 3 {
+			if len(prev)+1 <= 3 {
 				st.judgedCnt++
+			}
+			if len(ks) > 0 {
+				// the clock was stepped while this Do was in progress
+				seg, amb = seg[:0], append(amb[:0], s)
+			} else {
+				seg = append(seg, s)
 			}
 			st.samples++
 			out.Emit(r)
+			for i := 0; i < left; i++ {
+				step() // the place was not reached: the step lands after Do has returned
+			}
 		}
 	}
 	st.runs++
+	if role == "ref" {
+		st.refs++
+	}
 }
 
 var nscales = []int64{2000, 2000000, 20000000, 1000000000, 1000 * 1000000000, 1 << 50, 1 << 56}
 
-// runNtimedGroup concretises one behaviour (classes -> timestamps), runs it
-// on a fresh filter and then runs, for every reset / epoch change in it, the
-// samples that follow (up to the next one) on another fresh filter: the
-// metamorphic pairs "H1 . reset-or-epoch-change . H2" vs "fresh . H2".
+// runNtimedGroup concretises one behaviour (classes -> timestamps).  First
+// the references: for every place where "the samples seen since" can begin
+// (after a Reset, after a clock step, at and after a sample whose Do has a
+// clock step scheduled inside it) the samples that follow, up to the next
+// such place, are run on a fresh filter without any clock step.  Then the
+// behaviour itself, with its schedule of clock steps inside Do calls: the
+// metamorphic pairs "H1 . reset-or-clock-step . H2" vs "fresh . H2".
 func runNtimedGroup(out *vio.Out, evs []cev, clk0 int, src string, rng *rand.Rand, si int, st *nstats) {
 	c := &concretiser{rng: rng, scale: nscales[si]}
 	nev := make([]nevent, len(evs))
@@ -611,8 +749,23 @@ func runNtimedGroup(out *vio.Out, evs []cev, clk0 int, src string, rng *rand.Ran
 			if src == "gen" {
 				rep = !e.Fl && !e.Fh && rng.Intn(3) == 0
 			}
+			// a clock step inside this Do: the classes of this and the following samples
+			// are realised relative to the samples since the step (this sample counted on
+			// either side) or relative to everything so far (outliers for a filter that
+			// missed the step)
+			mode := -1
+			if len(e.St) > 0 {
+				mode = rng.Intn(3)
+			}
+			if mode == 0 {
+				c.reset()
+			}
 			nev[i].s = c.next(e.Fl, e.Fh, rep)
 			nev[i].ifl, nev[i].ifh = e.Fl, e.Fh
+			nev[i].st = e.St
+			if mode == 1 {
+				c.reset()
+			}
 		case "r", "e":
 			c.reset()
 		default:
@@ -621,20 +774,30 @@ func runNtimedGroup(out *vio.Out, evs []cev, clk0 int, src string, rng *rand.Ran
 	}
 	out.Emit(newNRec("ngroup", src))
 	st.groups++
-	runNtimed(out, nev, uint64(clk0), src, si, st)
-	// twins
+	// references
+	starts := make([]bool, len(nev)+1)
 	for i, e := range nev {
-		if e.t == "s" {
-			continue
-		}
-		j := i + 1
-		for j < len(nev) && nev[j].t == "s" {
-			j++
-		}
-		if j > i+1 {
-			runNtimed(out, nev[i+1:j], uint64(rng.Intn(3))*uint64(1+rng.Intn(1000)), src, si, st)
+		if e.t != "s" {
+			starts[i+1] = true
+		} else if len(e.st) > 0 {
+			starts[i], starts[i+1] = true, true
 		}
 	}
+	for a := 0; a < len(nev); a++ {
+		if !starts[a] || nev[a].t != "s" {
+			continue
+		}
+		b := a + 1
+		for b < len(nev) && nev[b].t == "s" {
+			b++
+			if len(nev[b-1].st) > 0 {
+				break // a reading of the samples since ends with the sample whose Do the next step lands in
+			}
+		}
+		runNtimed(out, nev[a:b], uint64(rng.Intn(3))*uint64(1+rng.Intn(1000)), src, "ref", si, st)
+	}
+	// the behaviour
+	runNtimed(out, nev, uint64(clk0), src, "main", si, st)
 }
 
 func randNtimedHistory(rng *rand.Rand) []cev {
@@ -651,6 +814,13 @@ func randNtimedHistory(rng *rand.Rand) []cev {
 			continue
 		}
 		e := cev{T: "s"}
+		if rng.Intn(10) == 0 {
+			// clock steps inside this Do: before the first read, between reads, after the last
+			e.St = []int{rng.Intn(4)}
+			if rng.Intn(4) == 0 {
+				e.St = append(e.St, e.St[0]+1+rng.Intn(2))
+			}
+		}
 		switch mode {
 		case 0: // mostly quiet: nested / repeated samples, rare outliers
 			if rng.Intn(8) == 0 {
@@ -742,9 +912,12 @@ func TestC17(t *testing.T) {
 		runNtimedGroup(out, randNtimedHistory(rng), rng.Intn(2), "rand", rng, rng.Intn(len(nscales)), &ns)
 	}
 
-	t.Logf("C17STATS lucky_runs=%d lucky_events=%d lucky_inexact=%d ntimed_groups=%d ntimed_runs=%d ntimed_samples=%d nolog=%d realised=%d judged_inb=%d judged_cnt=%d b1=%d b2=%d b3=%d b4=%d",
-		ls.runs, ls.events, ls.inexact, ns.groups, ns.runs, ns.samples, ns.nolog, ns.realised, ns.judgedInb, ns.judgedCnt,
-		ns.branch[1], ns.branch[2], ns.branch[3], ns.branch[4])
+	t.Logf("C17STATS lucky_runs=%d lucky_events=%d lucky_inexact=%d ntimed_groups=%d ntimed_runs=%d ntimed_refs=%d ntimed_samples=%d nolog=%d realised=%d judged_inb=%d judged_cnt=%d b1=%d b2=%d b3=%d b4=%d"+
+		" sched_dos=%d sched_steps=%d indo_dos=%d indo_steps=%d between_reads=%d after_return=%d reads0=%d reads1=%d reads2=%d reads3p=%d lucky_clock_calls=%d",
+		ls.runs, ls.events, ls.inexact, ns.groups, ns.runs, ns.refs, ns.samples, ns.nolog, ns.realised, ns.judgedInb, ns.judgedCnt,
+		ns.branch[1], ns.branch[2], ns.branch[3], ns.branch[4],
+		ns.schedDos, ns.schedSteps, ns.inDoDos, ns.inDoSteps, ns.between, ns.leftSteps,
+		ns.reads[0], ns.reads[1], ns.reads[2], ns.reads[3], luckyClockCalls)
 	if ls.runs == 0 || ns.samples == 0 {
 		t.Fatal("no record produced")
 	}
